@@ -55,7 +55,8 @@ PROPS = {
                  "field type of CmdType and FilterType round-trips through JSON. Wire: RequestRemoteData / UpdateData as seen on a "
                  "peer's connection. Non-trivial: grid cell (counted once per cell) that carries data, a selector or elements; value with >=3 "
                  "non-nil fields; wire case with a filter. Distinct by (function, shape) resp. JSON text."),
-        "assumptions": ["nil and empty lists are identified; a relative-only time period is compared by remaining duration within 1.2 s",
+        "assumptions": ["a time period whose remaining duration exceeds 3276 days is beyond what the duration text of the period type represents exactly (same limit as in C19): labelled, not judged",
+                        "nil and empty lists are identified; a relative-only time period is compared by remaining duration within 1.2 s",
                         "electricalConnectionCharacteristicData shares its elements field with the list function; asserted for the list function only",
                         "native fuzzing (thorough) cannot be seed-pinned; its saved input is the reproducible unit"],
         "runs": [
